@@ -6,6 +6,7 @@ import (
 	"go/parser"
 	"go/token"
 	"go/types"
+	"os"
 	"regexp"
 	"sort"
 	"strings"
@@ -45,6 +46,7 @@ type inlineHelper struct {
 	pkg   *packages.Package
 	file  *ast.File
 	waits bool // its body still calls another helper: expanded in a later round
+	keep  bool // a combinator (possibly pinned, possibly of another package): its declaration always stays
 	uses  int // references seen in the package
 	done  int // references expanded
 }
@@ -66,11 +68,16 @@ func funcKey(o *types.Func) string { return strings.ReplaceAll(o.FullName(), Mod
 func inlineRound(pkgs []*packages.Package, readFile func(abs string) ([]byte, error), counter *int) (map[string][]byte, []string) {
 	out := map[string][]byte{}
 	var log []string
+	combinators := collectCombinators(pkgs)
 	for _, p := range pkgs {
 		if p.Types == nil || p.TypesInfo == nil || IsMockPkg(p.PkgPath) || !strings.HasPrefix(p.PkgPath, Mod) {
 			continue
 		}
 		helpers := map[types.Object]*inlineHelper{}
+		for o, c := range combinators {
+			cc := *c
+			helpers[o] = &cc
+		}
 		for _, f := range p.Syntax {
 			for _, d := range f.Decls {
 				fd, ok := d.(*ast.FuncDecl)
@@ -134,6 +141,14 @@ func inlineRound(pkgs []*packages.Package, readFile func(abs string) ([]byte, er
 				if call, ok := n.(*ast.CallExpr); ok {
 					if id, ok := call.Fun.(*ast.Ident); ok {
 						callees[id] = true
+					}
+				}
+				// `_ = name` (emitted by an earlier expansion to keep an unused binding legal) is not a use as a value
+				if as, ok := n.(*ast.AssignStmt); ok && as.Tok == token.ASSIGN && len(as.Lhs) == 1 && len(as.Rhs) == 1 {
+					if l, isL := as.Lhs[0].(*ast.Ident); isL && l.Name == "_" {
+						if r, isR := as.Rhs[0].(*ast.Ident); isR {
+							callees[r] = true
+						}
 					}
 				}
 				return true
@@ -201,6 +216,9 @@ func inlineRound(pkgs []*packages.Package, readFile func(abs string) ([]byte, er
 		}
 		// blank the declarations of helpers whose every use was expanded
 		for _, h := range helpers {
+			if h.keep {
+				continue
+			}
 			if h.done > 0 && h.done == h.uses {
 				tf := p.Fset.File(h.file.Pos())
 				from := tf.Offset(h.from)
@@ -261,10 +279,7 @@ func inlineRound(pkgs []*packages.Package, readFile func(abs string) ([]byte, er
 }
 
 func notInlinable(body *ast.BlockStmt, sig *types.Signature) string {
-	if sig.Variadic() {
-		return "variadic"
-	}
-	if sig.TypeParams().Len() > 0 || sig.RecvTypeParams().Len() > 0 {
+	if sig.RecvTypeParams().Len() > 0 {
 		return "generic"
 	}
 	why := ""
@@ -294,8 +309,9 @@ func notInlinable(body *ast.BlockStmt, sig *types.Signature) string {
 	return why
 }
 
-// simpleDefer: an unconditional top-level `defer x.y.M()` (no arguments, receiver a selector chain of identifiers) that
-// precedes every return of the helper: running it after the expanded body is the same program.
+// simpleDefer: an unconditional top-level `defer x.y.M(args)` (receiver a selector chain of identifiers) that precedes
+// every return of the helper: evaluating the arguments in place and running the call at every exit of the expanded body is
+// the same program (panics aside).
 func simpleDefer(body *ast.BlockStmt, d *ast.DeferStmt) bool {
 	top := false
 	for _, s := range body.List {
@@ -303,7 +319,7 @@ func simpleDefer(body *ast.BlockStmt, d *ast.DeferStmt) bool {
 			top = true
 		}
 	}
-	if !top || len(d.Call.Args) != 0 {
+	if !top || d.Call.Ellipsis.IsValid() {
 		return false
 	}
 	var chain func(e ast.Expr) bool
@@ -319,19 +335,9 @@ func simpleDefer(body *ast.BlockStmt, d *ast.DeferStmt) bool {
 	if !chain(d.Call.Fun) {
 		return false
 	}
-	ok := true
-	ast.Inspect(body, func(n ast.Node) bool {
-		switch x := n.(type) {
-		case *ast.FuncLit:
-			return false
-		case *ast.ReturnStmt:
-			if x.Pos() < d.Pos() {
-				ok = false
-			}
-		}
-		return true
-	})
-	return ok
+	// a return that textually precedes the (top-level, goto-free) defer statement leaves before it is registered: the
+	// expansion runs at each exit only the deferred calls registered before it
+	return true
 }
 
 type inliner struct {
@@ -343,6 +349,7 @@ type inliner struct {
 	caller  *types.Func
 	counter *int
 	exprDone map[*ast.CallExpr]bool
+	qual     types.Qualifier
 	readFile func(string) ([]byte, error)
 	out     []splice
 	imports []string
@@ -358,13 +365,8 @@ func (ix *inliner) helperOf(call *ast.CallExpr) *inlineHelper {
 	if ix.exprDone[call] {
 		return nil
 	}
-	var id *ast.Ident
-	switch f := call.Fun.(type) {
-	case *ast.Ident:
-		id = f
-	case *ast.SelectorExpr:
-		id = f.Sel
-	default:
+	id := calleeIdent(call)
+	if id == nil {
 		return nil
 	}
 	o := ix.p.TypesInfo.Uses[id]
@@ -379,6 +381,24 @@ func (ix *inliner) helperOf(call *ast.CallExpr) *inlineHelper {
 		return nil // a recursive closure
 	}
 	return h
+}
+
+// calleeIdent: the identifier naming the function called: f(…), x.f(…), f[T](…), f[T, U](…).
+func calleeIdent(call *ast.CallExpr) *ast.Ident {
+	fun := call.Fun
+	switch x := fun.(type) {
+	case *ast.IndexExpr:
+		fun = x.X
+	case *ast.IndexListExpr:
+		fun = x.X
+	}
+	switch f := fun.(type) {
+	case *ast.Ident:
+		return f
+	case *ast.SelectorExpr:
+		return f.Sel
+	}
+	return nil
 }
 
 // block visits a statement list; each statement gets at most one expansion per round.
@@ -622,10 +642,31 @@ func (ix *inliner) rewrite(s ast.Stmt, from, to token.Pos, call *ast.CallExpr, h
 // expansion builds `var temps…; L: switch { default: <bindings>; <body> }`.
 func (ix *inliner) expansion(call *ast.CallExpr, h *inlineHelper, nres int, temps []string) (string, bool) {
 	sig := h.sig
-	if len(call.Args) != sig.Params().Len() {
-		return "", false
+	// a generic helper: use the signature of this instantiation and spell its type parameters out in the copied body
+	typeArgs := map[types.Object]string{}
+	if sig.TypeParams().Len() > 0 {
+		id := calleeIdent(call)
+		inst, ok := ix.p.TypesInfo.Instances[id]
+		isig, ok2 := inst.Type.(*types.Signature)
+		if id == nil || !ok || !ok2 || inst.TypeArgs.Len() != sig.TypeParams().Len() {
+			dbgRefuse(0)
+			return "", false
+		}
+		for i := 0; i < sig.TypeParams().Len(); i++ {
+			typeArgs[sig.TypeParams().At(i).Obj()] = "(" + types.TypeString(inst.TypeArgs.At(i), ix.qualifier()) + ")"
+		}
+		sig = isig
 	}
-	if call.Ellipsis.IsValid() {
+	variadic := sig.Variadic()
+	switch {
+	case !variadic && (len(call.Args) != sig.Params().Len() || call.Ellipsis.IsValid()):
+		dbgRefuse(626)
+		return "", false
+	case variadic && call.Ellipsis.IsValid() && len(call.Args) != sig.Params().Len():
+		dbgRefuse(627)
+		return "", false
+	case variadic && len(call.Args) < sig.Params().Len()-1:
+		dbgRefuse(628)
 		return "", false
 	}
 	qual := ix.qualifier()
@@ -635,11 +676,13 @@ func (ix *inliner) expansion(call *ast.CallExpr, h *inlineHelper, nres int, temp
 	if hfname != ix.tf.Name() {
 		b, err := ix.readFile(hfname)
 		if err != nil {
+			dbgRefuse(638)
 			return "", false
 		}
 		hsrc = b
 		// the overlay content of the helper's file is what was parsed
 		if len(b) != htf.Size() {
+			dbgRefuse(643)
 			return "", false
 		}
 	}
@@ -654,10 +697,12 @@ func (ix *inliner) expansion(call *ast.CallExpr, h *inlineHelper, nres int, temp
 	if sig.Recv() != nil && h.lit == nil {
 		sel, ok := call.Fun.(*ast.SelectorExpr)
 		if !ok {
+			dbgRefuse(657)
 			return "", false
 		}
 		selection := ix.p.TypesInfo.Selections[sel]
 		if selection == nil || len(selection.Index()) != 1 || selection.Kind() != types.MethodVal {
+			dbgRefuse(661)
 			return "", false
 		}
 		x := ix.text(sel.X.Pos(), sel.X.End())
@@ -674,13 +719,28 @@ func (ix *inliner) expansion(call *ast.CallExpr, h *inlineHelper, nres int, temp
 			name = r.List[0].Names[0].Name
 		}
 		names, vals = append(names, name), append(vals, x)
-	} else if _, isSel := call.Fun.(*ast.SelectorExpr); isSel {
+	} else if isQualifiedCallee(call) && !h.keep {
+		dbgRefuse(678)
 		return "", false // pkg.F from another package
 	}
 	k := 0
 	// each argument is converted to its parameter type, as the call would (untyped constants, nil, interface boxing)
+	var aliasFixes []identFix
+	var litBindings []string // `name := func(…) {…}` for function-literal arguments, so that a later round can expand their calls
 	argText := func(k int) string {
-		return "(" + types.TypeString(sig.Params().At(k).Type(), qual) + ")(" + ix.text(call.Args[k].Pos(), call.Args[k].End()) + ")"
+		pt := types.TypeString(sig.Params().At(k).Type(), qual)
+		if variadic && k == sig.Params().Len()-1 && !call.Ellipsis.IsValid() {
+			// f(a, b, rest…): the variadic parameter is the slice of the remaining arguments
+			if len(call.Args) <= k {
+				return "(" + pt + ")(nil)"
+			}
+			var rest []string
+			for _, a := range call.Args[k:] {
+				rest = append(rest, ix.text(a.Pos(), a.End()))
+			}
+			return pt + "{" + strings.Join(rest, ", ") + "}"
+		}
+		return "(" + pt + ")(" + ix.text(call.Args[k].Pos(), call.Args[k].End()) + ")"
 	}
 	for _, fl := range h.ftype.Params.List {
 		if len(fl.Names) == 0 {
@@ -689,6 +749,19 @@ func (ix *inliner) expansion(call *ast.CallExpr, h *inlineHelper, nres int, temp
 			continue
 		}
 		for _, nm := range fl.Names {
+			if k < len(call.Args) && !(variadic && k == sig.Params().Len()-1) {
+				if pobj := h.pkg.TypesInfo.Defs[nm]; pobj != nil && ix.funcAliasArg(call.Args[k], h, pobj) {
+					// the argument names a declared function: every use of the parameter is spelled as that function
+					aliasFixes = append(aliasFixes, ix.aliasUses(h, pobj, ix.text(call.Args[k].Pos(), call.Args[k].End()))...)
+					k++
+					continue
+				}
+				if _, isLit := call.Args[k].(*ast.FuncLit); isLit && nm.Name != "_" {
+					litBindings = append(litBindings, nm.Name+" := "+ix.text(call.Args[k].Pos(), call.Args[k].End())+"; _ = "+nm.Name+"; ")
+					k++
+					continue
+				}
+			}
 			names, vals = append(names, nm.Name), append(vals, argText(k))
 			k++
 		}
@@ -698,6 +771,9 @@ func (ix *inliner) expansion(call *ast.CallExpr, h *inlineHelper, nres int, temp
 		if n != "_" {
 			anyNew = true
 		}
+	}
+	for _, lb := range litBindings {
+		sb.WriteString(lb)
 	}
 	if len(names) > 0 {
 		op := " = "
@@ -721,6 +797,7 @@ func (ix *inliner) expansion(call *ast.CallExpr, h *inlineHelper, nres int, temp
 		}
 	}
 	if len(resNames) > 0 && len(resNames) != sig.Results().Len() {
+		dbgRefuse(724)
 		return "", false
 	}
 	for i, rn := range resNames {
@@ -734,46 +811,133 @@ func (ix *inliner) expansion(call *ast.CallExpr, h *inlineHelper, nres int, temp
 	fixes, ok := ix.captureFixes(call.Pos(), h, names, resNames)
 	if !ok {
 		ix.log = append(ix.log, fmt.Sprintf("inline: %s left as written in %s: a package-level name it uses is shadowed at the call site", h.name, funcKey(ix.caller)))
+		dbgRefuse(737)
 		return "", false
 	}
+	fixes = append(fixes, aliasFixes...)
 	// body with returns rewritten
 	type rep struct {
 		from, to int
 		text     string
 	}
 	var reps []rep
-	for _, fx := range fixes {
-		reps = append(reps, rep{htf.Offset(fx.id.Pos()), htf.Offset(fx.id.End()), fx.name})
+	// text of a source range of the helper with the package-name fixes that fall inside it applied
+	fixed := func(from, to int) string {
+		var in []identFix
+		for _, fx := range fixes {
+			if o := htf.Offset(fx.id.Pos()); o >= from && htf.Offset(fx.id.End()) <= to {
+				in = append(in, fx)
+			}
+		}
+		sort.Slice(in, func(i, j int) bool { return in[i].id.Pos() < in[j].id.Pos() })
+		var b strings.Builder
+		pos := from
+		for _, fx := range in {
+			b.Write(hsrc[pos:htf.Offset(fx.id.Pos())])
+			b.WriteString(fx.name)
+			pos = htf.Offset(fx.id.End())
+		}
+		b.Write(hsrc[pos:to])
+		return b.String()
 	}
-	var deferred []string
+	inReturn := func(fx identFix) bool {
+		hit := false
+		ast.Inspect(h.body, func(n ast.Node) bool {
+			switch x := n.(type) {
+			case *ast.FuncLit:
+				return false
+			case *ast.ReturnStmt:
+				if x.Pos() <= fx.id.Pos() && fx.id.End() <= x.End() {
+					hit = true
+				}
+			case *ast.DeferStmt:
+				if x.Pos() <= fx.id.Pos() && fx.id.End() <= x.End() {
+					hit = true
+				}
+			}
+			return true
+		})
+		return hit
+	}
+	if len(typeArgs) > 0 {
+		ast.Inspect(h.body, func(n ast.Node) bool {
+			if id, isID := n.(*ast.Ident); isID {
+				if t, isTP := typeArgs[h.pkg.TypesInfo.Uses[id]]; isTP {
+					fixes = append(fixes, identFix{id, t})
+				}
+			}
+			return true
+		})
+	}
+	for _, fx := range fixes {
+		if !inReturn(fx) {
+			reps = append(reps, rep{htf.Offset(fx.id.Pos()), htf.Offset(fx.id.End()), fx.name})
+		}
+	}
+	// deferred calls (simple, top-level, registered before any return): run at every way out of the expansion, after the
+	// results were evaluated, in reverse order of registration
+	type deferredCall struct {
+		at   token.Pos
+		text string
+	}
+	var deferred []deferredCall
+	deferCapture := map[*ast.DeferStmt]string{}
 	ast.Inspect(h.body, func(n ast.Node) bool {
 		switch x := n.(type) {
 		case *ast.FuncLit:
 			return false
 		case *ast.DeferStmt:
-			deferred = append([]string{string(hsrc[htf.Offset(x.Call.Pos()):htf.Offset(x.Call.End())])}, deferred...)
-			reps = append(reps, rep{htf.Offset(x.Pos()), htf.Offset(x.End()), ""})
+			// the arguments are evaluated where the defer statement stands (into temporaries of this copy), the call
+			// itself runs at the exits
+			capture, args := "", []string{}
+			for k, a := range x.Call.Args {
+				tn := fmt.Sprintf("__inl%d_d%d_%d", *ix.counter, len(deferred), k)
+				capture += tn + " := " + fixed(htf.Offset(a.Pos()), htf.Offset(a.End())) + "; _ = " + tn + "; "
+				args = append(args, tn)
+			}
+			deferCapture[x] = capture
+			deferred = append([]deferredCall{{x.Pos(), fixed(htf.Offset(x.Call.Fun.Pos()), htf.Offset(x.Call.Fun.End())) + "(" + strings.Join(args, ", ") + ")"}}, deferred...)
+			return false
+		}
+		return true
+	})
+	runDeferredAt := func(at token.Pos) string {
+		out := ""
+		for _, dcall := range deferred {
+			if dcall.at < at {
+				out += dcall.text + "; "
+			}
+		}
+		return out
+	}
+	ast.Inspect(h.body, func(n ast.Node) bool {
+		switch x := n.(type) {
+		case *ast.FuncLit:
+			return false
+		case *ast.DeferStmt:
+			reps = append(reps, rep{htf.Offset(x.Pos()), htf.Offset(x.End()), deferCapture[x]})
 			return false
 		case *ast.ReturnStmt:
 			var t string
 			var exprs []string
+			runDeferred := runDeferredAt(x.Pos())
 			for _, r := range x.Results {
-				exprs = append(exprs, string(hsrc[htf.Offset(r.Pos()):htf.Offset(r.End())]))
+				exprs = append(exprs, fixed(htf.Offset(r.Pos()), htf.Offset(r.End())))
 			}
 			if len(x.Results) == 0 && len(resNames) > 0 {
 				exprs = resNames
 			}
 			switch {
 			case nres > 0 && len(exprs) > 0:
-				t = "{ " + strings.Join(temps, ", ") + " = " + strings.Join(exprs, ", ") + "; break " + label + " }"
+				t = "{ " + strings.Join(temps, ", ") + " = " + strings.Join(exprs, ", ") + "; " + runDeferred + "break " + label + " }"
 			case len(exprs) > 0:
 				blanks := make([]string, sig.Results().Len())
 				for i := range blanks {
 					blanks[i] = "_"
 				}
-				t = "{ " + strings.Join(blanks, ", ") + " = " + strings.Join(exprs, ", ") + "; break " + label + " }"
+				t = "{ " + strings.Join(blanks, ", ") + " = " + strings.Join(exprs, ", ") + "; " + runDeferred + "break " + label + " }"
 			default:
-				t = "{ break " + label + " }"
+				t = "{ " + runDeferred + "break " + label + " }"
 			}
 			reps = append(reps, rep{htf.Offset(x.Pos()), htf.Offset(x.End()), t})
 			return false
@@ -785,6 +949,7 @@ func (ix *inliner) expansion(call *ast.CallExpr, h *inlineHelper, nres int, temp
 	sort.Slice(reps, func(i, j int) bool { return reps[i].from < reps[j].from })
 	for i := 1; i < len(reps); i++ {
 		if reps[i].from < reps[i-1].to {
+			dbgRefuse(803)
 			return "", false
 		}
 	}
@@ -801,7 +966,7 @@ func (ix *inliner) expansion(call *ast.CallExpr, h *inlineHelper, nres int, temp
 		pos = r.to
 	}
 	sb.Write(hsrc[pos:bTo])
-	sb.WriteString("\nbreak " + label + "\n}")
+	sb.WriteString("\n" + runDeferredAt(h.body.Rbrace) + "break " + label + "\n}")
 	// names generated by an earlier round inside the copied body get a prefix of this copy (two copies of the same
 	// helper in one function must not declare the same label)
 	if body := sb.String(); strings.Contains(string(hsrc[bFrom:bTo]), "__inl") {
@@ -816,20 +981,6 @@ func (ix *inliner) expansion(call *ast.CallExpr, h *inlineHelper, nres int, temp
 		sb.Reset()
 		sb.WriteString(renamed)
 	}
-	if len(deferred) > 0 {
-		// the deferred calls use the helper's own names (receiver, parameters): re-bind them after the body
-		if len(names) > 0 && anyNew {
-			sb.WriteString("; { " + strings.Join(names, ", ") + " := " + strings.Join(vals, ", ") + "; ")
-			for _, n := range names {
-				if n != "_" {
-					sb.WriteString("_ = " + n + "; ")
-				}
-			}
-			sb.WriteString(strings.Join(deferred, "; ") + " }")
-		} else {
-			sb.WriteString("; " + strings.Join(deferred, "; "))
-		}
-	}
 	return sb.String(), true
 }
 
@@ -840,6 +991,14 @@ type identFix struct {
 
 // qualifier renders types for the caller's file, adding imports when a package is not imported there.
 func (ix *inliner) qualifier() types.Qualifier {
+	if ix.qual != nil {
+		return ix.qual
+	}
+	ix.qual = ix.newQualifier()
+	return ix.qual
+}
+
+func (ix *inliner) newQualifier() types.Qualifier {
 	byPath := map[string]string{}
 	for _, is := range ix.f.Imports {
 		if pn := ix.p.TypesInfo.PkgNameOf(is); pn != nil && pn.Name() != "_" && pn.Name() != "." {
@@ -1026,10 +1185,12 @@ func simpleOperand(e ast.Expr) bool {
 
 func (ix *inliner) exprExpansion(call *ast.CallExpr, h *inlineHelper) (string, bool) {
 	if len(h.body.List) != 1 || h.sig.Results().Len() != 1 || call.Ellipsis.IsValid() || len(call.Args) != h.sig.Params().Len() {
+		dbgRefuse(1030)
 		return "", false
 	}
 	ret, ok := h.body.List[0].(*ast.ReturnStmt)
 	if !ok || len(ret.Results) != 1 {
+		dbgRefuse(1034)
 		return "", false
 	}
 	hasLit := false
@@ -1040,21 +1201,36 @@ func (ix *inliner) exprExpansion(call *ast.CallExpr, h *inlineHelper) (string, b
 		return true
 	})
 	if hasLit {
+		dbgRefuse(1044)
 		return "", false
 	}
 	for _, a := range call.Args {
 		if !simpleOperand(a) {
+			dbgRefuse(1048)
 			return "", false
 		}
 	}
 	qual := ix.qualifier()
 	// parameter objects -> replacement text
 	repl := map[types.Object]string{}
+	esig := h.sig
+	if esig.TypeParams().Len() > 0 {
+		id := calleeIdent(call)
+		inst, ok := ix.p.TypesInfo.Instances[id]
+		isig, ok2 := inst.Type.(*types.Signature)
+		if id == nil || !ok || !ok2 || inst.TypeArgs.Len() != esig.TypeParams().Len() {
+			return "", false
+		}
+		for i := 0; i < esig.TypeParams().Len(); i++ {
+			repl[esig.TypeParams().At(i).Obj()] = "(" + types.TypeString(inst.TypeArgs.At(i), qual) + ")"
+		}
+		esig = isig
+	}
 	k := 0
 	for _, fl := range h.ftype.Params.List {
 		for _, nm := range fl.Names {
 			if o := h.pkg.TypesInfo.Defs[nm]; o != nil {
-				repl[o] = "(" + types.TypeString(h.sig.Params().At(k).Type(), qual) + ")(" + ix.text(call.Args[k].Pos(), call.Args[k].End()) + ")"
+				repl[o] = "(" + types.TypeString(esig.Params().At(k).Type(), qual) + ")(" + ix.text(call.Args[k].Pos(), call.Args[k].End()) + ")"
 			}
 			k++
 		}
@@ -1066,10 +1242,12 @@ func (ix *inliner) exprExpansion(call *ast.CallExpr, h *inlineHelper) (string, b
 	if h.sig.Recv() != nil && h.lit == nil {
 		sel, ok := call.Fun.(*ast.SelectorExpr)
 		if !ok || !simpleOperand(sel.X) {
+			dbgRefuse(1070)
 			return "", false
 		}
 		selection := ix.p.TypesInfo.Selections[sel]
 		if selection == nil || len(selection.Index()) != 1 || selection.Kind() != types.MethodVal {
+			dbgRefuse(1074)
 			return "", false
 		}
 		x := ix.text(sel.X.Pos(), sel.X.End())
@@ -1089,6 +1267,7 @@ func (ix *inliner) exprExpansion(call *ast.CallExpr, h *inlineHelper) (string, b
 			}
 		}
 	} else if _, isSel := call.Fun.(*ast.SelectorExpr); isSel {
+		dbgRefuse(1093)
 		return "", false
 	}
 	// parameters must not be assigned or have their address taken in the expression (plain reads only)
@@ -1102,10 +1281,12 @@ func (ix *inliner) exprExpansion(call *ast.CallExpr, h *inlineHelper) (string, b
 		return true
 	})
 	if !okReads {
+		dbgRefuse(1106)
 		return "", false
 	}
 	fixes, ok := ix.captureFixes(call.Pos(), h, names, nil)
 	if !ok {
+		dbgRefuse(1110)
 		return "", false
 	}
 	htf := h.pkg.Fset.File(h.file.Pos())
@@ -1114,6 +1295,7 @@ func (ix *inliner) exprExpansion(call *ast.CallExpr, h *inlineHelper) (string, b
 	if hfname != ix.tf.Name() {
 		b, err := ix.readFile(hfname)
 		if err != nil || len(b) != htf.Size() {
+			dbgRefuse(1118)
 			return "", false
 		}
 		hsrc = b
@@ -1158,7 +1340,186 @@ func (ix *inliner) exprExpansion(call *ast.CallExpr, h *inlineHelper) (string, b
 	// keep it on one line: comments inside the expression would swallow the rest
 	out := sb.String()
 	if strings.Contains(out, "//") {
+		dbgRefuse(1162)
 		return "", false
 	}
 	return strings.ReplaceAll(out, "\n", " "), true
+}
+
+func dbgRefuse(line int) {
+	if os.Getenv("VERIF_INLINE_DEBUG") != "" {
+		fmt.Fprintf(os.Stderr, "inline: expansion refused at inline.go:%d\n", line)
+	}
+}
+
+// isQualifiedCallee: the callee is written pkg.F or pkg.F[T] (a function of another package).
+func isQualifiedCallee(call *ast.CallExpr) bool {
+	f := call.Fun
+	switch x := f.(type) {
+	case *ast.IndexExpr:
+		f = x.X
+	case *ast.IndexListExpr:
+		f = x.X
+	}
+	_, isSel := f.(*ast.SelectorExpr)
+	return isSel
+}
+
+// collectCombinators: generic package-level functions of the module that take a function and whose body mentions nothing
+// but their own parameters, locals, type parameters and builtins (MapSlice, Filter, …). Such a body means the same text
+// in every package, so a call `pkg.MapSlice(xs, f)` is expanded at the call site wherever it stands — also when the
+// combinator is a function of the pinned tree — and the per-element computation becomes visible to the rules in the
+// caller. The declaration itself is never dropped.
+func collectCombinators(pkgs []*packages.Package) map[types.Object]*inlineHelper {
+	out := map[types.Object]*inlineHelper{}
+	for _, p := range pkgs {
+		if p.Types == nil || p.TypesInfo == nil || IsMockPkg(p.PkgPath) || !strings.HasPrefix(p.PkgPath, Mod) {
+			continue
+		}
+		for _, f := range p.Syntax {
+			if strings.HasSuffix(p.Fset.Position(f.Pos()).Filename, "_test.go") {
+				continue
+			}
+			for _, d := range f.Decls {
+				fd, ok := d.(*ast.FuncDecl)
+				if !ok || fd.Body == nil || fd.Recv != nil {
+					continue
+				}
+				obj, _ := p.TypesInfo.Defs[fd.Name].(*types.Func)
+				if obj == nil {
+					continue
+				}
+				sig := obj.Type().(*types.Signature)
+				if sig.TypeParams().Len() == 0 || sig.Variadic() {
+					continue
+				}
+				takesFunc := false
+				for i := 0; i < sig.Params().Len(); i++ {
+					if _, isF := sig.Params().At(i).Type().Underlying().(*types.Signature); isF {
+						takesFunc = true
+					}
+				}
+				if !takesFunc || notInlinable(fd.Body, sig) != "" {
+					continue
+				}
+				closed := true
+				ast.Inspect(fd.Body, func(n ast.Node) bool {
+					if _, isLit := n.(*ast.FuncLit); isLit {
+						closed = false
+					}
+					id, isID := n.(*ast.Ident)
+					if !isID {
+						return true
+					}
+					o := p.TypesInfo.Uses[id]
+					if o == nil {
+						return true
+					}
+					if o.Pkg() == nil { // builtin or universe
+						return true
+					}
+					if _, isField := o.(*types.Var); isField && o.(*types.Var).IsField() {
+						return true
+					}
+					if o.Pos() >= fd.Pos() && o.Pos() < fd.End() { // parameter, type parameter, result or local
+						return true
+					}
+					closed = false
+					return true
+				})
+				if !closed {
+					continue
+				}
+				out[obj] = &inlineHelper{obj: obj, name: funcKey(obj), sig: sig, ftype: fd.Type, body: fd.Body,
+					from: fd.Pos(), to: fd.End(), pkg: p, file: f, keep: true}
+			}
+		}
+	}
+	return out
+}
+
+// funcAliasArg: argument e of a call to helper h, bound to parameter pobj, names a declared package-level function (f,
+// pkg.F, f[T]) and the helper only ever calls or passes the parameter (never assigns it), and no name in e is declared
+// again inside the helper.
+func (ix *inliner) funcAliasArg(e ast.Expr, h *inlineHelper, pobj types.Object) bool {
+	if _, isSig := pobj.Type().Underlying().(*types.Signature); !isSig {
+		return false
+	}
+	base := e
+	switch x := base.(type) {
+	case *ast.IndexExpr:
+		base = x.X
+	case *ast.IndexListExpr:
+		base = x.X
+	}
+	var id *ast.Ident
+	switch x := base.(type) {
+	case *ast.Ident:
+		id = x
+	case *ast.SelectorExpr:
+		if pk, isID := x.X.(*ast.Ident); !isID {
+			return false
+		} else if _, isPkg := ix.p.TypesInfo.Uses[pk].(*types.PkgName); !isPkg {
+			return false
+		}
+		id = x.Sel
+	default:
+		return false
+	}
+	fn, _ := ix.p.TypesInfo.Uses[id].(*types.Func)
+	if fn == nil || fn.Type().(*types.Signature).Recv() != nil {
+		return false
+	}
+	// names declared inside the helper (parameters included) would capture the spelled-out function
+	declared := map[string]bool{}
+	ast.Inspect(h.ftype, func(n ast.Node) bool {
+		if d, isID := n.(*ast.Ident); isID && h.pkg.TypesInfo.Defs[d] != nil {
+			declared[d.Name] = true
+		}
+		return true
+	})
+	okBody := true
+	ast.Inspect(h.body, func(n ast.Node) bool {
+		switch x := n.(type) {
+		case *ast.Ident:
+			if h.pkg.TypesInfo.Defs[x] != nil {
+				declared[x.Name] = true
+			}
+		case *ast.AssignStmt:
+			for _, l := range x.Lhs {
+				if li, isID := l.(*ast.Ident); isID && h.pkg.TypesInfo.Uses[li] == pobj {
+					okBody = false
+				}
+			}
+		case *ast.UnaryExpr:
+			if x.Op == token.AND {
+				if li, isID := x.X.(*ast.Ident); isID && h.pkg.TypesInfo.Uses[li] == pobj {
+					okBody = false
+				}
+			}
+		}
+		return true
+	})
+	if !okBody {
+		return false
+	}
+	clash := false
+	ast.Inspect(e, func(n ast.Node) bool {
+		if x, isID := n.(*ast.Ident); isID && declared[x.Name] {
+			clash = true
+		}
+		return true
+	})
+	return !clash
+}
+
+func (ix *inliner) aliasUses(h *inlineHelper, pobj types.Object, text string) []identFix {
+	var out []identFix
+	ast.Inspect(h.body, func(n ast.Node) bool {
+		if id, isID := n.(*ast.Ident); isID && h.pkg.TypesInfo.Uses[id] == pobj {
+			out = append(out, identFix{id, text})
+		}
+		return true
+	})
+	return out
 }
